@@ -67,5 +67,37 @@ fn main() {
             std::process::exit(1);
         }
     }}}}
+    // Rio-backed parser sources: multi-triple statements, sink fault at every position, whole-stream and step-wise
+    {
+        use sophia_api::source::TripleSource;
+        use sophia_api::triple::Triple;
+        use sophia_api::term::Term;
+        let doc = "@prefix : <x:> .\n:s0 :p :o0 .\n:s1 :p :o1, :o2, :o3 ; :q :o4 .\n:s2 :p :o5 .\n";
+        for bad_tail in [false, true] {
+            let doc = if bad_tail { format!("{} :s3 :p .\n", doc) } else { doc.to_string() };
+            for fail_at in 0..8usize { for stepwise in [false, true] {
+                n += 1;
+                let mut got: Vec<String> = vec![];
+                let mut calls = 0usize;
+                let mut src = sophia_turtle::parser::turtle::parse_str(&doc);
+                let r = {
+                    let mut cb = |o: String| -> Result<(), EB> { calls += 1; if got.len() == fail_at { return Err(EB(42)); } got.push(o); Ok(()) };
+                    if stepwise {
+                        loop { match src.try_for_some_triple(|t| cb(t.o().iri().unwrap().as_str().to_string())) { Ok(true) => {}, Ok(false) => break Ok(()), Err(e) => break Err(e) } }
+                    } else {
+                        src.try_for_each_triple(|t| cb(t.o().iri().unwrap().as_str().to_string()))
+                    }
+                };
+                let all = ["x:o0", "x:o1", "x:o2", "x:o3", "x:o4", "x:o5"];
+                let want: Vec<String> = all.iter().take(fail_at.min(6)).map(|s| s.to_string()).collect();
+                let ok_result = if fail_at < 6 { matches!(&r, Err(StreamError::SinkError(EB(42)))) && calls == fail_at + 1 }
+                    else if bad_tail { matches!(&r, Err(StreamError::SourceError(_))) && calls == 6 } else { r.is_ok() && calls == 6 };
+                if got != want || !ok_result {
+                    println!("{{\"mismatch\":\"Turtle source: consumer saw {:?} in {} calls, result ok={} ; expected prefix {:?}\",\"sink_fails_at\":{},\"stepwise\":{},\"syntax_error_at_end\":{}}}", got, calls, r.is_ok(), want, fail_at, stepwise, bad_tail);
+                    std::process::exit(1);
+                }
+            }}
+        }
+    }
     println!("{{\"ok\":true,\"cases\":{}}}", n);
 }
